@@ -23,7 +23,8 @@ ASSUMPTIONS = [
     "empty reads with data remaining, premature EOF and partial lines",
     "slice matching is greedy earliest-occurrence (sound for 'non-overlapping slices in stream order')",
 ]
-GATES = ["frames_checked", "delivered_after_fault", "plans_enumerated", "directed_double_faults"]
+GATES = ["frames_checked", "delivered_after_fault", "plans_enumerated", "directed_double_faults", "socket_runs",
+         "socket_delivered_with_faults"]
 GATES_ZERO = ["budget_exceeded"]
 
 
@@ -187,6 +188,65 @@ def run_case(ctx, data, plan, mode, pseed, foreign=True, label="gen"):
                     "mode": mode, "delivered": len(delivered), "offsets": offs[:8]})
 
 
+def socket_case(ctx, data, sched, bufsize, mode):
+    """The same delivered-frame checker over a socket-backed reader with timeouts / OS errors / close."""
+    from pyrtcm import RTCMReader
+
+    libs = common.lib_errors()
+    params = {"socket": True, "data": data.hex(), "sched": sched, "bufsize": bufsize, "mode": mode}
+    sock = doubles.ScriptedSocket(data, sched, budget=6 * len(data) + 8 * len(sched) + 64)
+    delivered = []
+    try:
+        try:
+            rdr = RTCMReader(sock, validate=1, quitonerror=mode, bufsize=bufsize, errorhandler=(lambda e: None))
+            idle = 0
+            guard = len(data) + 4 * len(sched) + 32
+            while guard > 0 and idle < len(sched) + 4:
+                guard -= 1
+                try:
+                    raw, parsed = rdr.read()
+                except libs:
+                    continue
+                except doubles.BudgetExceeded:
+                    ctx.hit("budget_exceeded")
+                    break
+                except Exception as e:
+                    ctx.hit("foreign_exception:" + type(e).__name__)
+                    break
+                if raw is None and parsed is None:
+                    idle += 1
+                    if sock._vpos >= len(data) and not sock._sched[sock._si:] and idle > 2:
+                        break
+                    continue
+                delivered.append((bytes(raw), parsed))
+                if len(delivered) > len(data):
+                    break
+        except doubles.BudgetExceeded:
+            ctx.hit("budget_exceeded")
+    finally:
+        sock.close()
+    for i, (raw, parsed) in enumerate(delivered):
+        why = refcrc.wellformed(raw)
+        if why:
+            ctx.violation("malformed-frame-delivered", f"socket: delivery {i} raw={raw[:24].hex()}..: {why}", params)
+            return
+        if parsed is None or parsed.payload != raw[3:-3]:
+            ctx.violation("payload-mismatch", f"socket: delivery {i}: parsed.payload != raw[3:-3]", params)
+            return
+    offs, bad = common.greedy_locate(data, [r for r, _ in delivered])
+    if bad is not None:
+        ctx.violation("not-a-slice-in-order",
+                      f"socket: delivery {bad} ({delivered[bad][0][:16].hex()}.. len {len(delivered[bad][0])}) is not a "
+                      f"slice of the source at/after the end of the previous delivered slice "
+                      f"({sock.faults} timeouts/errors injected)", params)
+        return
+    ctx.hit("frames_checked", len(delivered))
+    ctx.hit("socket_runs")
+    if sock.faults and delivered:
+        ctx.hit("socket_delivered_with_faults")
+    ctx.case(b"sock" + data + repr((sched, bufsize, mode)).encode(), bool(delivered) and sock.faults > 0)
+
+
 def count_calls(data):
     """Number of read calls of a fault-free run (to enumerate fault positions)."""
     from pyrtcm import RTCMReader
@@ -253,6 +313,19 @@ def run(ctx):
             plan = {rng.randrange(max(1, ncalls)): rng.choice(("short", "short", "empty", "eof", "partial"))
                     for _ in range(k)}
             run_case(ctx, data, plan, mode, rng.getrandbits(16), foreign, "mix")
+    # (b2) socket-backed reader with timeouts / OS errors between segments
+    for _ in range(ctx.n(1500, 40000)):
+        data, _f = make_stream(rng, small=rng.random() < 0.5)
+        sched = []
+        left = len(data)
+        while left > 0:
+            k = rng.choice((1, 2, 3, 7, 20, 50, 200, 1500))
+            sched.append(k)
+            left -= k
+            if rng.random() < 0.2:
+                sched.append(rng.choice(("T", "E")))
+        sched += [rng.choice(("T", "E"))] * rng.choice((0, 1, 2))
+        socket_case(ctx, data, sched[:600], rng.choice((1, 3, 64, 4096)), rng.choice((0, 1, 2)))
     # (c) recorded logs with random plans
     logs = common.recorded_logs(120000)
     for i, (name, data) in enumerate(logs):
@@ -267,5 +340,8 @@ def run(ctx):
 
 def replay(ctx, p):
     common.quiet_logging()
+    if p.get("socket"):
+        socket_case(ctx, bytes.fromhex(p["data"]), p["sched"], p["bufsize"], p["mode"])
+        return
     run_case(ctx, bytes.fromhex(p["data"]), {int(k): v for k, v in p["plan"].items()}, p["mode"],
              p["pseed"], True, p.get("label", "replay"))
